@@ -528,4 +528,64 @@ example : Mdns.Driver.MonDuel.renamesOf false (str "dup._http._tcp.local.") =
     [str "dup (2)._http._tcp.local.", str "dup (3)._http._tcp.local.", str "dup (4)._http._tcp.local.",
      str "dup (5)._http._tcp.local."] := by decide
 
+/-! ## Conflict detection ignores letter case (daemon level, repair of D38)
+
+  Model: `Mdns/Model/Responder.lean` (`Registry.probeKey`, `conflictOnAnswer`, `tiebreak`), compared
+  with the real daemon on every run of `./check C07` / `C06` (histories with conflicting responses
+  and competing probes that spell the names in other letter cases). -/
+
+/-- our probe of a name is found whatever the letter case of the name asked for -/
+theorem probe_lookup_ignores_case (reg : Mdns.Responder.Registry) (n1 n2 : BList) (h : lower n1 = lower n2) :
+    reg.probeKey n1 = reg.probeKey n2 := by
+  unfold Mdns.Responder.Registry.probeKey
+  rw [h]
+
+/-- ... and what is found is a probe of ours whose name is the name asked for, up to letter case -/
+theorem probe_lookup_ours (reg : Mdns.Responder.Registry) (n k : BList) (h : reg.probeKey n = some k) :
+    lower k = lower n ∧ ∃ p, (k, p) ∈ reg.probing := by
+  unfold Mdns.Responder.Registry.probeKey at h
+  cases hf : reg.probing.find? (fun e => lower e.1 == lower n) with
+  | none => rw [hf] at h; cases h
+  | some e =>
+    rw [hf] at h
+    simp only [Option.map_some, Option.some.injEq] at h
+    subst h
+    exact ⟨by simpa using List.find?_some hf, e.2, List.mem_of_find?_eq_some hf⟩
+
+/-- CONFLICT DETECTION IGNORES LETTER CASE: what `conflict_handler` does with an answer of a
+    response depends on the answer's owner name only up to letter case - the same conflict is
+    found, the same records are renamed, and the new names are made from OUR spelling of the
+    name.  Before the repair the probe was looked up by the exact spelling on the wire: two hosts
+    claiming `duphost.local.` and `DUPHOST.local.` never saw a conflict. -/
+theorem conflict_detection_ignores_case (now jitter : Nat) (acc : Mdns.Responder.Registry × List Nat) (a : Wire.Rec)
+    (n1 n2 : BList) (h : lower n1 = lower n2) :
+    Mdns.Responder.conflictOnAnswer now jitter acc { a with name := n1 } =
+      Mdns.Responder.conflictOnAnswer now jitter acc { a with name := n2 } := by
+  have e := probe_lookup_ignores_case acc.1 n1 n2 h
+  unfold Mdns.Responder.conflictOnAnswer
+  simp only [e]
+  rfl
+
+/-- our probe of `DUPHOST.local.` with the address 192.168.1.20 -/
+def dupReg : Mdns.Responder.Registry :=
+  { probing := [(str "DUPHOST.local.",
+      { records := [{ name := str "DUPHOST.local.", ty := 1, flush := true, ttl := 120, rdata := .a [192, 168, 1, 20] }],
+        waiting := [str "web._http._tcp.local."], start := 1000, next := 1250 })] }
+
+/-- REGRESSION (D38, witness corpus/C08/d38_host_conflict_case_sensitive.ops): a response with
+    `duphost.local. A 192.168.1.10` conflicts with our probe of `DUPHOST.local.`: our record moves
+    to a probe of `DUPHOST-2.local.` (our spelling) and the rename is remembered; the same
+    address as ours, in whatever case, is no conflict -/
+example :
+    ((Mdns.Responder.conflictOnAnswer 2000 7 (dupReg, [])
+        { name := str "duphost.local.", ty := 1, cls := 1, flush := true, ttl := 120, rdata := .a [192, 168, 1, 10],
+          start := 0, stop := 0 }).1.probing.map (·.1), 
+     (Mdns.Responder.conflictOnAnswer 2000 7 (dupReg, [])
+        { name := str "duphost.local.", ty := 1, cls := 1, flush := true, ttl := 120, rdata := .a [192, 168, 1, 10],
+          start := 0, stop := 0 }).1.nameChanges) =
+      ([str "DUPHOST.local.", str "DUPHOST-2.local."], [(str "DUPHOST.local.", str "DUPHOST-2.local.")]) ∧
+    Mdns.Responder.conflictOnAnswer 2000 7 (dupReg, [])
+        { name := str "duphost.LOCAL.", ty := 1, cls := 1, flush := true, ttl := 120, rdata := .a [192, 168, 1, 20],
+          start := 0, stop := 0 } = (dupReg, []) := by decide +kernel
+
 end Mdns.Props.C08
